@@ -71,6 +71,17 @@ def register(gen, T):
         nbp = normws(bp)
         sel = re.search(r'let ir = ir\.clone\(\); let ir = if let Some\(pipeline\) = pipeline \{ ir\.select_pipeline\(&pipeline\.name\)\.unwrap\(\) \} else \{ ir \};', nbp)
         out.append(f"def buildClonesAndSelectsByName : Bool := {'true' if sel else 'false'}\n\n")
+        # Module::select_pipeline marks the one pipeline whose name is *equal* to the requested name; assign_api_bindings
+        # takes the default bind group from the marked pipeline
+        irm = T.src("ir/src/ir_module.rs")
+        sp = re.sub(r'\s+', '', fn_body(irm, "select_pipeline"))
+        sel_exact = sp == ("letmutselected=None;for(i,pipeline)inself.pipelines.iter().enumerate(){ifpipeline.name.node==name{"
+                           "assert_eq!(selected,None);selected=Some(i);}}selected?;letmutoutput=self.clone();"
+                           "output.selected_pipeline=selected;Some(output)")
+        ab = re.sub(r'\s+', '', fn_body(irm, "assign_api_bindings"))
+        dset = "letdefault_set=matchself.selected_pipeline{Some(index)=>self.pipelines[index].default_bind_group_index,None=>0,};" in ab
+        out.append(f"def selectPipelineByExactName : Bool := {'true' if sel_exact else 'false'}\n\n")
+        out.append(f"def defaultSetFromSelectedPipeline : Bool := {'true' if dset else 'false'}\n\n")
 
         # --- every textual use of `.pipelines` in non-test sources, classified
         uses = []
